@@ -172,3 +172,146 @@ Proof.
   intros eps t done rest Hc Ht -> Hd. pose proof (thread_well_locked eps _ Hc Ht) as Hw.
   rewrite wl_app, Hd in Hw. eapply holder_will_release; eauto.
 Qed.
+
+Lemma excluded_unsafe_sound : forall eps ex, excluded_unsafe_diag eps ex = [] ->
+  forall p, In p ex -> chk (written eps) false (snd p) <> [].
+Proof.
+  intros eps ex H p Hin Hc. unfold excluded_unsafe_diag in H.
+  pose proof (flat_map_nil _ _ _ _ H p Hin) as E. cbv beta in E. rewrite Hc in E. discriminate.
+Qed.
+
+(* ------------------------------------------------------------------ completeness of the checker on live code *)
+Local Close Scope string_scope.
+
+Definition keeps_or_fails (prot : field -> bool) (t : list ev) : Prop :=
+  forall h, wl prot h t = None \/ wl prot h t = Some h.
+
+Lemma kof_nil : forall prot, keeps_or_fails prot [].
+Proof. intros prot h. right. reflexivity. Qed.
+
+Lemma kof_tau : forall prot, keeps_or_fails prot [ETau].
+Proof. intros prot h. right. reflexivity. Qed.
+
+Lemma kof_app : forall prot t1 t2, keeps_or_fails prot t1 -> keeps_or_fails prot t2 -> keeps_or_fails prot (t1 ++ t2).
+Proof.
+  intros prot t1 t2 H1 H2 h. rewrite wl_app. destruct (H1 h) as [E|E]; rewrite E; [left; reflexivity | apply H2].
+Qed.
+
+Lemma kof_locked : forall prot t, keeps_or_fails prot t -> keeps_or_fails prot (EAcq :: t ++ [ERel]).
+Proof.
+  intros prot t H h. cbn [wl]. destruct h; [left; reflexivity|]. rewrite wl_app.
+  destruct (H true) as [E|E]; rewrite E; [left; reflexivity | right; reflexivity].
+Qed.
+
+Lemma kof_acc : forall prot cls fld m, is_shared cls = true ->
+  exists e, (forall fn, exec (SAcc fn cls fld m) [e] false) /\ keeps_or_fails prot [e].
+Proof.
+  intros prot cls fld m Hs. destruct m.
+  - exists (ERd 0 (cls, fld) 0%Z). split; [intros; apply X_rd; assumption|]. intros h. cbn. destruct (prot (cls, fld) && negb h); auto.
+  - exists (EWr 0 (cls, fld) 0%Z). split; [intros; apply X_wr; assumption|]. intros h. cbn. destruct (prot (cls, fld) && h); auto.
+  - exists ETau. split; [intros; apply X_init | apply kof_tau].
+Qed.
+
+(* every skeleton has an execution that keeps the lock state or already breaks the discipline *)
+Lemma nice_exec : forall prot s, exists t fl, exec s t fl /\ keeps_or_fails prot t.
+Proof.
+  intros prot. induction s.
+  - exists [], false. split; [constructor | apply kof_nil].
+  - exists [], true. split; [constructor | apply kof_nil].
+  - destruct (is_shared cls) eqn:E.
+    + destruct (kof_acc prot cls fld m E) as [e [He Hk]]. exists [e], false. auto.
+    + exists [ETau], false. split; [apply X_own; assumption | apply kof_tau].
+  - exists [ETau], false. split; [constructor | apply kof_tau].
+  - exists [ETau], false. split; [constructor | apply kof_tau].
+  - exists [ETau], false. split; [apply X_raw | apply kof_tau].
+  - destruct IHs as [t [fl [He Hk]]]. exists t, false. split; [econstructor; eassumption | assumption].
+  - destruct IHs1 as [t1 [f1 [H1 K1]]]. destruct IHs2 as [t2 [f2 [H2 K2]]]. destruct f1.
+    + exists t1, true. split; [apply X_seq_abrupt; assumption | assumption].
+    + exists (t1 ++ t2), f2. split; [eapply X_seq; eassumption | apply kof_app; assumption].
+  - destruct IHs1 as [t1 [f1 [H1 K1]]]. exists t1, f1. split; [apply X_alt_l; assumption | assumption].
+  - exists [], false. split; [constructor | apply kof_nil].
+  - destruct IHs as [t [fl [He Hk]]]. exists (EAcq :: t ++ [ERel]), fl. split; [constructor; assumption | apply kof_locked; assumption].
+Qed.
+
+Lemma can_normal_exec : forall prot s, can_normal s = true -> exists t, exec s t false /\ keeps_or_fails prot t.
+Proof.
+  intros prot. induction s; intros Hc; cbn [can_normal] in Hc; try discriminate.
+  - exists []. split; [constructor | apply kof_nil].
+  - destruct (is_shared cls) eqn:E.
+    + destruct (kof_acc prot cls fld m E) as [e [He Hk]]. exists [e]. auto.
+    + exists [ETau]. split; [apply X_own; assumption | apply kof_tau].
+  - exists [ETau]. split; [constructor | apply kof_tau].
+  - exists [ETau]. split; [constructor | apply kof_tau].
+  - exists [ETau]. split; [apply X_raw | apply kof_tau].
+  - destruct (nice_exec prot s) as [t [fl [He Hk]]]. exists t. split; [econstructor; eassumption | assumption].
+  - apply andb_true_iff in Hc. destruct Hc as [C1 C2].
+    destruct (IHs1 C1) as [t1 [H1 K1]]. destruct (IHs2 C2) as [t2 [H2 K2]].
+    exists (t1 ++ t2). split; [eapply X_seq; eassumption | apply kof_app; assumption].
+  - apply orb_true_iff in Hc. destruct Hc as [C|C].
+    + destruct (IHs1 C) as [t [H K]]. exists t. split; [apply X_alt_l; assumption | assumption].
+    + destruct (IHs2 C) as [t [H K]]. exists t. split; [apply X_alt_r; assumption | assumption].
+  - exists []. split; [constructor | apply kof_nil].
+  - destruct (IHs Hc) as [t [H K]]. exists (EAcq :: t ++ [ERel]). split; [constructor; assumption | apply kof_locked; assumption].
+Qed.
+
+(* COMPLETENESS on live code: a violation found on code that can be reached is a real one - some execution of the skeleton
+   breaks the lock discipline (the checker raises no false UNLOCKED / REACQUIRE alarm except on dead code) *)
+Theorem viol_complete : forall wr s h, viol wr h s = true ->
+  exists t fl, exec s t fl /\ wl (prot_of wr) h t = None.
+Proof.
+  intros wr. induction s; intros h Hv; cbn [viol] in Hv; try discriminate.
+  - (* access *)
+    destruct m; try discriminate.
+    + apply andb_true_iff in Hv. destruct Hv as [Hv Hh]. apply andb_true_iff in Hv. destruct Hv as [Hs Hm].
+      exists [ERd 0 (cls, fld) 0%Z], false. split; [apply X_rd; assumption|]. cbn. unfold prot_of. rewrite Hm, Hh. reflexivity.
+    + apply andb_true_iff in Hv. destruct Hv as [Hv Hh]. apply andb_true_iff in Hv. destruct Hv as [Hs Hm].
+      exists [EWr 0 (cls, fld) 0%Z], false. split; [apply X_wr; assumption|]. cbn. unfold prot_of. rewrite Hm.
+      destruct h; [discriminate | reflexivity].
+  - (* raw lock construct: it may be an acquire while held or a release while free *)
+    exists [if h then EAcq else ERel], false. split; [apply X_raw|]. destruct h; reflexivity.
+  - destruct (IHs h Hv) as [t [fl [He Hw]]]. exists t, false. split; [econstructor; eassumption | assumption].
+  - apply orb_true_iff in Hv. destruct Hv as [Hv|Hv].
+    + destruct (IHs1 h Hv) as [t [fl [He Hw]]]. destruct fl.
+      * exists t, true. split; [apply X_seq_abrupt; assumption | assumption].
+      * destruct (nice_exec (prot_of wr) s2) as [t2 [f2 [H2 _]]]. exists (t ++ t2), f2.
+        split; [eapply X_seq; eassumption|]. rewrite wl_app, Hw. reflexivity.
+    + apply andb_true_iff in Hv. destruct Hv as [Hn Hv].
+      destruct (can_normal_exec (prot_of wr) s1 Hn) as [t1 [H1 K1]].
+      destruct (IHs2 h Hv) as [t2 [f2 [H2 W2]]].
+      exists (t1 ++ t2), f2. split; [eapply X_seq; eassumption|]. rewrite wl_app.
+      destruct (K1 h) as [E|E]; rewrite E; [reflexivity | assumption].
+  - apply orb_true_iff in Hv. destruct Hv as [Hv|Hv].
+    + destruct (IHs1 h Hv) as [t [fl [He Hw]]]. exists t, fl. split; [apply X_alt_l; assumption | assumption].
+    + destruct (IHs2 h Hv) as [t [fl [He Hw]]]. exists t, fl. split; [apply X_alt_r; assumption | assumption].
+  - destruct (IHs h Hv) as [t [fl [He Hw]]]. destruct fl.
+    + exists t, true. split; [apply X_loop_exit; assumption | assumption].
+    + exists (t ++ []), false. split; [eapply X_loop_next; [eassumption | constructor]|]. rewrite app_nil_r. assumption.
+  - apply orb_true_iff in Hv. destruct Hv as [Hh|Hv].
+    + subst h. destruct (nice_exec (prot_of wr) s) as [t [fl [He _]]]. exists (EAcq :: t ++ [ERel]), fl.
+      split; [constructor; assumption | reflexivity].
+    + destruct (IHs true Hv) as [t [fl [He Hw]]]. exists (EAcq :: t ++ [ERel]), fl. split; [constructor; assumption|].
+      cbn [wl]. destruct h; [reflexivity|]. rewrite wl_app, Hw. reflexivity.
+Qed.
+
+(* the two checkers agree in the sound direction: a skeleton the reflective checker accepts has no violation on live code *)
+Lemma chk_nil_no_viol : forall wr s h, chk wr h s = [] -> viol wr h s = false.
+Proof.
+  intros wr. induction s; intros h Hc; cbn [chk viol] in *; try reflexivity.
+  - destruct m; [| | reflexivity]; destruct (is_shared cls); cbn [andb]; try reflexivity;
+      (destruct (mem_field (cls, fld) wr && negb h) eqn:E; [discriminate | reflexivity]).
+  - discriminate.
+  - apply IHs; assumption.
+  - apply app_eq_nil in Hc. destruct Hc as [Ha Hb]. rewrite (IHs1 h Ha), (IHs2 h Hb). cbn. apply andb_false_r.
+  - apply app_eq_nil in Hc. destruct Hc as [Ha Hb]. rewrite (IHs1 h Ha), (IHs2 h Hb). reflexivity.
+  - apply IHs; assumption.
+  - apply app_eq_nil in Hc. destruct Hc as [Hh Hc]. apply app_eq_nil in Hc. destruct Hc as [_ Hb].
+    destruct h; [discriminate|]. cbn. apply IHs; assumption.
+Qed.
+
+(* non-vacuity: an unlocked write after a locked region is a violation on live code; the same write after a return is dead code *)
+Example viol_example :
+  let w := SAcc "f"%string "JitAllocatorPool"%string "cursor"%string W in
+  let wr := [("JitAllocatorPool"%string, "cursor"%string)] in
+  viol wr false (SSeq (SLocked "f"%string "JitAllocatorPrivateImpl"%string "lock"%string w) w) = true /\
+  viol wr false (SSeq SRet w) = false /\ chk wr false (SSeq SRet w) <> [].
+Proof. cbv zeta. split; [reflexivity|]. split; [reflexivity|]. vm_compute. discriminate. Qed.
